@@ -8,6 +8,7 @@ package main
 //	wbody[w]                       identity of the reader whose bytes were sent as the body
 //	wlen[w]                        Content-Length framing used by http.Response.Write (-1: chunked)
 //	whdr[w]                        identity of the header map sent by http.Response.Write
+//	wte[w]                         number of transfer codings (1 = chunked) used by http.Response.Write
 //
 // http.Response.Write and io.NopCloser are assumed models of net/http and io.
 
@@ -68,6 +69,9 @@ func init() {
 		}
 		if h, ok := x.specFieldOf(st, resp, "Header").(MapV); ok {
 			x.ghostSet(st, "whdr", w, h.ID)
+		}
+		if te, ok := x.specFieldOf(st, resp, "TransferEncoding").(SliceV); ok {
+			x.ghostSet(st, "wte", w, te.Len)
 		}
 		k(st, []Value{x.freshErr(st, "respwriteerr")})
 	}
